@@ -10,10 +10,10 @@ ID = 'C02'
 LEVEL = 'exploration'
 TIERS = {'quick': 5000, 'thorough': 250000}
 RULE = ('seeded sessions over all operations pushed to the extremes the API can produce (local-id counter preset near 2^32, device remote ids up '
-        'to 2^32-1, maxdata up to 1 MiB with 0xFF-filled pushes, bytes and bytearray payloads, DONE mtimes up to 2^32-1, long paths; a fifth of the sessions authenticate with 1-4 keys against a device that rejects the first ones); every host '
-        'byte is parsed by an independent decoder; non-trivial = the run carried >= 1 payload packet and >= 4 packets; distinct = event-log digests')
+        'to 2^32-1, maxdata up to 1 MiB (rarely 2-3 MiB, with a push that fills such a message) with 0xFF-filled pushes, bytes and bytearray payloads, DONE mtimes up to 2^32-1, long paths; a fifth of the sessions authenticate with 1-4 keys against a device that rejects the first ones); every host '
+        'byte is parsed by an independent decoder, and on the in-memory transport (no write can fail) the host byte stream must end at a message boundary at the end of the session; non-trivial = the run carried >= 1 payload packet and >= 4 packets; distinct = event-log digests')
 ASSUMPTIONS = ['the pack/unpack clause is exercised only at the values simulated sessions produce (incl. 32-bit extremes); no separate input fuzzer is claimed']
-EXPECT_PROBES = {'all': ['c02_arg_ge_2_31', 'c02_payload_sum_ge_2_24', 'c02_payload_ge_64k', 'c02_auth_messages', 'c02_newer_version_64k', 'c02_tcp_backpressure', 'debug_logging_on']}
+EXPECT_PROBES = {'all': ['c02_arg_ge_2_31', 'c02_payload_sum_ge_2_24', 'c02_payload_ge_64k', 'c02_auth_messages', 'c02_newer_version_64k', 'c02_tcp_backpressure', 'debug_logging_on', 'c02_payload_gt_1mib']}
 KINDS = ['shell', 'exec_out', 'streaming_shell', 'root', 'list', 'stat', 'pull', 'push', 'push', 'push']
 OWN = ('wire-format', 'wire-partial-message', 'unpack-mismatch', 'hang', 'no-termination')
 
@@ -31,6 +31,10 @@ def generate(seed, tier):
         # large 0xFF-filled push: the largest checksums the API can produce
         d['maxdata'] = g.pick([1048576, 262144, 131072, 1048576])
         size = g.pick([70000, 140000, 300000]) if tier == 'quick' else g.pick([70000, 300000, 1100000, 2200000])
+        if g.chance(0.06):
+            # a device that takes more per message than the host's own 1 MiB, and a file that fills such a message
+            d['maxdata'] = g.pick([2097152, 3145728])
+            size = d['maxdata'] + g.pick([-70000, 100, 300000])
         scn['actors'][0].append({'op': 'push', 'src': g.pick(['bytesio', 'file']), 'content': {'seed': 1, 'size': size, 'alpha': 'ff'},
                                  'path': '/data/' + 'p' * g.pick([1, 200, 1000]), 'mtime': g.pick([0xFFFFFFFF, 0x80000000, 0]), 'mode': 0o100644})
         scn['config']['frag'] = 'whole'
@@ -84,10 +88,20 @@ def evaluate(case, tapes=None):
             pr['c02_payload_sum_ge_2_24'] = pr.get('c02_payload_sum_ge_2_24', 0) + 1
         if name == 'AUTH':
             pr['c02_auth_messages'] = pr.get('c02_auth_messages', 0) + 1
+        if ln > 1048576:
+            pr['c02_payload_gt_1mib'] = pr.get('c02_payload_gt_1mib', 0) + 1
         if ln >= 65536:
             pr['c02_payload_ge_64k'] = pr.get('c02_payload_ge_64k', 0) + 1
             if scn['device'].get('version', W.A_VERSION) > W.A_VERSION:
                 pr['c02_newer_version_64k'] = pr.get('c02_newer_version_64k', 0) + 1
+    dv = run.device
+    if scn.get('transport', 'mem') == 'mem' and not run.abort and not run.link.faults_fired and not dv.broken and (dv.rx_hdr is not None or dv.rxbuf):
+        # no write ever failed in this run (in-memory transport, no fault): what the host has sent ends with a complete message
+        if dv.rx_hdr is not None:
+            ln = W.parse_header(dv.rx_hdr)[3]
+            probs.append(O.P('wire-partial-message', 'the last header (%s) announces %d payload bytes, only %d followed by the end of the session although no transport write failed' % (W.NAMES.get(W.parse_header(dv.rx_hdr)[0], '?'), ln, len(dv.rxbuf))))
+        else:
+            probs.append(O.P('wire-partial-message', '%d bytes of a header at the end of the session although no transport write failed' % len(dv.rxbuf)))
     if scn.get('transport') == 'tcp' and getattr(run.sock, 'backlogged', 0):
         pr['c02_tcp_backpressure'] = pr.get('c02_tcp_backpressure', 0) + 1
     out['violations'] = [p for p in probs if p[0] in OWN]
